@@ -35,18 +35,21 @@ Section Run.
 
   Definition do_relate v a b t := relate (lookup_variances adt) (lookup_variances fnv) default_fuel v a b t.
 
+  (** One observation per [SRelate] / [SBoth] step (the steps that create universes and
+      variables are observed through the next relate). *)
   Fixpoint run (t : table) (steps : list step) : list (sres * table) :=
     match steps with
     | [] => []
     | s :: r =>
-        let '(res, t') :=
-          match s with
-          | SNewUniverse => (RUnit, snd (new_universe t))
-          | SNewVar u => (RUnit, snd (new_variable u t))
-          | SRelate v a b => let '(o, t') := do_relate v a b t in (to_sres o, t')
-          | SBoth v a b => (RBoth (flag (fst (do_relate v a b t))) (flag (fst (do_relate v b a t))), t)
-          end in
-        (res, t') :: match res with RPanic | ROther => [] | _ => run t' r end
+        match s with
+        | SNewUniverse => run (snd (new_universe t)) r
+        | SNewVar u => run (snd (new_variable u t)) r
+        | SRelate v a b =>
+            let '(o, t') := do_relate v a b t in
+            (to_sres o, t') :: match o with Done _ | NoSol => run t' r | _ => [] end
+        | SBoth v a b =>
+            (RBoth (flag (fst (do_relate v a b t))) (flag (fst (do_relate v b a t))), empty_table) :: run t r
+        end
     end.
 End Run.
 
@@ -202,7 +205,7 @@ Definition goals_of (r : sres) : list tm := match r with ROk gs => gs | _ => [] 
 Definition obs_match (ns : N) (m i : sres * table) : bool :=
   sres_flag_eqb (fst m) (fst i) &&
   match fst m with
-  | RPanic => true                                   (* the table after a panic is unspecified *)
+  | RPanic | RBoth _ _ => true                       (* the table after a panic is unspecified; [SBoth] works on copies *)
   | _ => state_match ns (snd m) (snd i) (goals_of (fst m)) (goals_of (fst i))
   end.
 
